@@ -49,6 +49,7 @@ type VerifNode struct {
 	ItemLen            uint32
 	Item               *Item // cached item, nil when not in memory
 	Left, Right        *VerifNode
+	Cut                bool // the walk stopped here: deeper than any sane tree (cycle?)
 }
 
 // VerifRoot describes the version a collection handle currently points at.
@@ -61,9 +62,12 @@ type VerifRoot struct {
 	Tree     *VerifNode
 }
 
-func verifPeekNode(nloc *nodeLoc, budget *int) *VerifNode {
-	if nloc == nil || nloc.isEmpty() || *budget <= 0 {
+func verifPeekNode(nloc *nodeLoc, budget *int, depth int) *VerifNode {
+	if nloc == nil || nloc.isEmpty() {
 		return nil
+	}
+	if *budget <= 0 || depth > 4096 {
+		return &VerifNode{Cut: true}
 	}
 	*budget--
 	res := &VerifNode{}
@@ -82,8 +86,8 @@ func verifPeekNode(nloc *nodeLoc, budget *int) *VerifNode {
 		res.ItemOff, res.ItemLen = n.item.loc.Offset, n.item.loc.Length
 	}
 	res.Item = n.item.item
-	res.Left = verifPeekNode(&n.left, budget)
-	res.Right = verifPeekNode(&n.right, budget)
+	res.Left = verifPeekNode(&n.left, budget, depth+1)
+	res.Right = verifPeekNode(&n.right, budget, depth+1)
 	return res
 }
 
@@ -108,8 +112,8 @@ func VerifPeek(c *Collection) *VerifRoot {
 	for i, n := range r.reclaimLater {
 		res.Later[i] = uintptr(unsafe.Pointer(n))
 	}
-	budget := 1 << 22
-	res.Tree = verifPeekNode(r.root, &budget)
+	budget := 1 << 20
+	res.Tree = verifPeekNode(r.root, &budget, 0)
 	return res
 }
 
